@@ -13,6 +13,10 @@
 
 static std::string BUILD, PRELOAD;
 
+#include <dirent.h>
+// every regular file the tool wrote into the working directory (inputs excluded), name -> content
+static std::map<std::string, std::string> slurp_outputs();
+static void remove_outputs();
 static std::string slurp(const std::string &p) {
   std::ifstream f(p);
   std::stringstream ss;
@@ -36,6 +40,22 @@ static std::vector<Tool> tools() {
   };
 }
 
+static bool is_input(const std::string &n) { return n == "top.xml" || n == "opt.xml" || n == "trj.dump" || n[0] == '.'; }
+static std::map<std::string, std::string> slurp_outputs() {
+  std::map<std::string, std::string> m;
+  DIR *d = opendir(".");
+  if (!d) return m;
+  while (dirent *e = readdir(d)) {
+    std::string n = e->d_name;
+    if (is_input(n) || e->d_type == DT_DIR) continue;
+    m[n] = slurp(n);
+  }
+  closedir(d);
+  return m;
+}
+static void remove_outputs() {
+  for (auto &kv : slurp_outputs()) unlink(kv.first.c_str());
+}
 static void write_inputs() {
   const int NM = 4;  // molecules of 2 beads (types A and B)
   {
@@ -133,17 +153,17 @@ int main(int argc, char **argv) {
   if (!ex.shm) { fprintf(stderr, "cannot map control block\n"); return 2; }
   ex.horizon = horizon;
   ex.child_timeout_s = 60;
-  std::map<std::string, std::vector<std::string>> refs;  // per (tool, extra) reference outputs from nt=1 without the scheduler
-  auto reference = [&](const Cfg &c) -> std::vector<std::string> & {
+  std::map<std::string, std::map<std::string, std::string>> refs;  // per (tool, extra): all files written by nt=1 without the scheduler
+  auto reference = [&](const Cfg &c) -> std::map<std::string, std::string> & {
     std::string k = std::to_string(c.tool) + "|" + c.extra;
     auto it = refs.find(k);
     if (it != refs.end()) return it->second;
-    for (auto &o : T[c.tool].outputs) unlink(o.c_str());
+    remove_outputs();
     ex.body = [&](vs_shared *, const std::vector<int> &) { run_tool(T[c.tool], 1, c.extra, false, "", {}, 0); };
     ex.run({});
-    std::vector<std::string> r;
-    for (auto &o : T[c.tool].outputs) r.push_back(slurp(o));
-    return refs[k] = r;
+    refs[k] = slurp_outputs();
+    remove_outputs();
+    return refs[k];
   };
   auto judge = [&](const Cfg &c, const vsx::Exec &x) {
     Verdict v;
@@ -154,15 +174,19 @@ int main(int argc, char **argv) {
     if (x.verdict == VS_DEADLOCK) { bad(mode + "-deadlock", x.message); return v; }
     if (x.verdict == VS_HORIZON) { bad(mode + "-livelock", "step horizon exceeded"); return v; }
     if (x.crashed || x.verdict != VS_COMPLETED) { bad(mode + "-crash", "exit status " + std::to_string(x.status) + " verdict " + std::to_string(x.verdict)); return v; }
-    std::vector<std::string> &ref = reference(c);
-    for (size_t i = 0; i < t.outputs.size(); i++) {
-      std::string got = slurp(t.outputs[i]);
-      if (ref[i].empty()) { bad("MACHINERY", "reference run wrote no " + t.outputs[i]); return v; }
-      if (t.ordered ? got != ref[i] : !close_tables(got, ref[i]))
+    std::map<std::string, std::string> &ref = reference(c);
+    std::map<std::string, std::string> got = slurp_outputs();
+    if (ref.empty()) { bad("MACHINERY", "the single-thread reference run wrote no output file"); return v; }
+    for (auto &kv : ref) {
+      if (!got.count(kv.first)) { bad(mode + "-output-file-missing", kv.first + " is written by the single-thread run but not by this one"); continue; }
+      const std::string &g = got[kv.first];
+      if (t.ordered ? g != kv.second : !close_tables(g, kv.second))
         bad(mode + (t.ordered ? "-output-not-byte-identical" : "-output-differs-beyond-rounding"),
-            t.outputs[i] + " differs from the single-thread run (" + std::to_string(got.size()) + " vs " + std::to_string(ref[i].size()) + " bytes)");
-      v.obs += std::to_string(bsx::fnv(got) % 100000) + " ";
+            kv.first + " differs from the single-thread run (" + std::to_string(g.size()) + " vs " + std::to_string(kv.second.size()) + " bytes)");
+      v.obs += std::to_string(bsx::fnv(g) % 100000) + " ";
     }
+    for (auto &kv : got)
+      if (!ref.count(kv.first)) bad(mode + "-extra-output-file", kv.first + " is not written by the single-thread run");
     return v;
   };
   auto parsecfg = [&](std::map<std::string, std::string> &m) { return Cfg{atoi(m["tool"].c_str()), atoi(m["nt"].c_str()), m["extra"]}; };
@@ -178,11 +202,11 @@ int main(int argc, char **argv) {
     std::vector<int> sched = vsx::parse_sched(m["sched"]);
     reference(c);
     runner(c);
-    for (auto &o : T[c.tool].outputs) unlink(o.c_str());
+    remove_outputs();
     vsx::Exec x1 = ex.run(sched);
     Verdict v1 = judge(c, x1);
     std::string t1 = vsx::trace_str(ex.shm);
-    for (auto &o : T[c.tool].outputs) unlink(o.c_str());
+    remove_outputs();
     vsx::Exec x2 = ex.run(sched);
     Verdict v2 = judge(c, x2);
     std::string t2 = vsx::trace_str(ex.shm);
@@ -201,8 +225,9 @@ int main(int argc, char **argv) {
   std::vector<Cfg> cfgs;
   for (int tool = 0; tool < (int)T.size(); tool++)
     for (int nt : {2, 3})
-      for (std::string extra : {"", "--nframes 2", "--first-frame 2", "--first-frame 2 --nframes 2", "--nframes 1"}) {
-        if (!thorough && nt == 3 && extra != "" && extra != "--nframes 2") continue;
+      for (std::string extra : {"", "--nframes 2", "--first-frame 2", "--first-frame 2 --nframes 2", "--nframes 1", "--block-length 2", "--block-length 1 --nframes 3"}) {
+        if (extra.find("block-length") != std::string::npos && tool != 0) continue;  // block output is a csg_stat feature
+        if (!thorough && nt == 3 && extra != "" && extra != "--nframes 2" && extra != "--block-length 2") continue;
         cfgs.push_back({tool, nt, extra});
       }
   if (thorough) for (int tool = 0; tool < (int)T.size(); tool++) cfgs.push_back({tool, 4, ""});
@@ -228,14 +253,14 @@ int main(int argc, char **argv) {
         R.cls(cfgstr(c) + "|" + vsx::trace_str(x.shm));
         if (R.samples.size() < R.max_samples && schedules % 41 == 1) R.sample(cas + " => outputs equal to the single-thread run; trace " + vsx::trace_str(x.shm, 40));
       }
-      for (auto &o : T[c.tool].outputs) unlink(o.c_str());
+      remove_outputs();
       if (R.out_of_time()) { R.cap("time budget reached while exploring " + cfgstr(c)); return false; }
       return true;
     };
-    for (auto &o : T[c.tool].outputs) unlink(o.c_str());
+    remove_outputs();
     vsx::Exec root = ex.run({});
     std::vector<vsx::Explorer::Branch> br = ex.branches(root, bound);
-    for (auto &o : T[c.tool].outputs) unlink(o.c_str());
+    remove_outputs();
     if (a.mine(unit++)) { vsx::Exec r2 = ex.run({}); if (!on_exec(r2)) { stop = true; break; } }
     for (auto &bb : br) {
       if (!a.mine(unit++)) continue;
